@@ -2175,6 +2175,9 @@ class HDKey(Key):
                     first_public = False
                 else:
                     key = key.child_private(index=index, hardened=hardened, network=network)
+        elif first_public and key.is_private:
+            # 'M' on its own is the public key of this key, not the private key itself
+            key = key.public()
         return key
 
     def public_master(self, account_id=0, purpose=None, multisig=None, witness_type=None, as_private=False):
